@@ -219,6 +219,9 @@ def body_for(bsel, rid):
     if bsel == 11:  # ... quoting the request's own id
         m = {"jsonrpc": "2.0", "id": rid, "error": {"code": -32001, "message": "denied", "data": {"k": None}}}
         return _json.dumps(m).encode(), [m]
+    if bsel == 12:  # a genuine response whose result is the empty object (ping, logging/setLevel)
+        m = {"jsonrpc": "2.0", "id": rid, "result": {}}
+        return _json.dumps(m).encode(), [m]
     raise HarnessError("bsel")
 
 
@@ -238,6 +241,9 @@ def sse_body_for(ssel, rid):
         return ("event: other\ndata: " + r + "\n\n").encode(), []
     if ssel == 6:
         return ("id: 1\ndata: " + n + "\n\ndata: " + r + "\n\n").encode(), [NOTIF, RESP(rid)]
+    if ssel == 7:
+        e = {"jsonrpc": "2.0", "id": rid, "result": {}}
+        return ("data: " + n + "\n\ndata: " + _json.dumps(e) + "\n\n").encode(), [NOTIF, e]
     raise HarnessError("ssel")
 
 
